@@ -11,7 +11,9 @@
 //           single-stepped and logged; code outside the ranges (runtime, standard library, harness) runs at
 //           full speed: on a call out of the ranges a temporary breakpoint at the return address resumes the
 //           stepping, and 'L' breakpoints on the entries of the functions in the ranges catch calls INTO them
-//           from outside. Ranges of kind 'a' (assembly routines traced elsewhere) only have their entry logged.
+//           from outside. Ranges of kind 'a' (assembly routines traced elsewhere) only have their entry logged. Ranges
+//           of kind 's' (standard-library packages that compute on data) have no entry breakpoints: they are stepped
+//           when called from stepped code, never on their own.
 //           -r file: lines "<lo hex> <hi hex> <g|a>".
 //
 // Record (little endian, 19 x uint64): tag, rip, rsp, rax, rbx, rcx, rdx, rsi, rdi, rbp,
@@ -87,7 +89,7 @@ static void release_postponed(pid_t t) {
 
 
 // ---- library stepping (modes G / L)
-#define MAXRANGE 4096
+#define MAXRANGE 65536
 static uint64_t rg_lo[MAXRANGE], rg_hi[MAXRANGE];
 static char rg_kind[MAXRANGE];
 static int nrg;
@@ -147,6 +149,9 @@ static int lib_step(pid_t t, int tagidx, long *steps, long maxsteps) {
   struct user_regs_struct r;
   for (;;) {
     ptrace(PTRACE_GETREGS, t, 0, &r);
+    // returned to the caller that entered the ranges from outside (checked first: that caller may itself lie in a
+    // range of kind 's', which is stepped only when reached from stepped code)
+    if (nframes > 0 && r.rip == frames[nframes - 1]) { nframes--; return 0; }
     int ri = range_of(r.rip);
     if (ri >= 0) {
       emit(0 | ((uint64_t)tagidx << 8), &r);
@@ -155,7 +160,7 @@ static int lib_step(pid_t t, int tagidx, long *steps, long maxsteps) {
         // entry of an assembly routine: logged, then it runs at full speed; stepping resumes at its return address
         uint64_t ret = peek(t, r.rsp);
         int rr = range_of(ret);
-        if (rr >= 0 && rg_kind[rr] == 'g') set_tmp(t, ret, 'R');
+        if (rr >= 0 && (rg_kind[rr] == 'g' || rg_kind[rr] == 's')) set_tmp(t, ret, 'R');
         else if (nframes > 0 && frames[nframes - 1] == ret) nframes--;
         int f = step_insn(t, r.rip);
         return f;
@@ -169,7 +174,7 @@ static int lib_step(pid_t t, int tagidx, long *steps, long maxsteps) {
     if (nframes > 0 && r.rip == frames[nframes - 1]) { nframes--; return 0; } // returned to the outside caller
     uint64_t ret = peek(t, r.rsp);
     int rr = range_of(ret);
-    if (rr >= 0 && rg_kind[rr] == 'g') set_tmp(t, ret, 'R'); // a call out of the ranges: resume at its return
+    if (rr >= 0 && (rg_kind[rr] == 'g' || rg_kind[rr] == 's')) set_tmp(t, ret, 'R'); // a call out of the ranges: resume at its return
     else lib_lost++;
     return 0;
   }
